@@ -29,6 +29,7 @@ EXPLANATION = (
     "_overlap_with_rot_sd. "
     "HOLO-1 on every _calc_force_bias*; CAP-1 (Cholesky-vector axis complete); SIB-2 (dependence form) "
     "for hand-written restricted force biases. "
+    ' SIB-2 (dependence form): the force bias of a class reads each trial component its overlap reads. The function differentiated by vjp may be the overlap helper itself or a wrapper (lambda / partial / local def) that fixes some of its arguments: the cotangent index is resolved through the wrapper. '
 )
 NOT_DECIDED = "numerical equality of the three evaluation modes; signs and factors inside the hand-coded contractions where no second copy exists (ghf)."
 TECHNIQUE = "static analysis: cotangent-index binding check, linear value numbering of sibling implementations, spin-exchange symmetry"
